@@ -106,19 +106,19 @@ mod std_specs {
     use std::collections::VecDeque;
     const MAXN: usize = 3;
     fn fin() -> f64 { let x: f64 = kani::any(); kani::assume(x.is_finite()); x }
-    /// a deque whose contents are `sh[..n]`, with its head rotated by `rot` slots inside the ring buffer
-    fn any_deque() -> (VecDeque<f64>, [f64; MAXN], usize) {
+    /// a deque whose contents are `sh[..n]`, with its head rotated by `rot` slots inside the ring buffer; `rot` and `n` are concrete (the
+    /// harnesses enumerate all 12 layouts), the element values are symbolic over all finite f64
+    fn mk_deque(rot: usize, n: usize) -> (VecDeque<f64>, [f64; MAXN], usize) {
         let mut q: VecDeque<f64> = VecDeque::with_capacity(MAXN);
-        let rot: usize = kani::any(); kani::assume(rot < MAXN);
         if rot >= 1 { q.push_back(0.0); q.pop_front(); }
         if rot >= 2 { q.push_back(0.0); q.pop_front(); }
-        let n: usize = kani::any(); kani::assume(n <= MAXN);
         let sh = [fin(), fin(), fin()];
         if n >= 1 { q.push_back(sh[0]); }
         if n >= 2 { q.push_back(sh[1]); }
         if n >= 3 { q.push_back(sh[2]); }
         (q, sh, n)
     }
+    fn layouts(f: fn(usize, usize)) { let mut rot = 0; while rot < MAXN { let mut n = 0; while n <= MAXN { f(rot, n); n += 1; } rot += 1; } }
     fn is_min_of(m: f64, sh: &[f64; MAXN], n: usize) -> bool {
         let mut all = true; let mut some = false; let mut i = 0;
         while i < n { if !(m <= sh[i]) { all = false; } if m.to_bits() == sh[i].to_bits() { some = true; } i += 1; }
@@ -131,8 +131,9 @@ mod std_specs {
     }
     #[kani::proof]
     #[kani::unwind(5)]
-    fn std_min_max_by() {
-        let (q, sh, n) = any_deque();
+    fn std_min_max_by() { layouts(min_max_by) }
+    fn min_max_by(rot: usize, n: usize) {
+        let (q, sh, n) = mk_deque(rot, n);
         // Min / Max (src/sliding_windows/min.rs, max.rs)
         let mn = q.iter().copied().min_by(|a, b| a.partial_cmp(b).expect("Can compare elements"));
         let mx = q.iter().copied().max_by(|a, b| a.partial_cmp(b).expect("Can compare elements"));
@@ -147,8 +148,9 @@ mod std_specs {
     }
     #[kani::proof]
     #[kani::unwind(5)]
-    fn std_deque_access() {
-        let (q, sh, n) = any_deque();
+    fn std_deque_access() { layouts(deque_access) }
+    fn deque_access(rot: usize, n: usize) {
+        let (q, sh, n) = mk_deque(rot, n);
         assert!(q.len() == n);
         assert!(q.is_empty() == (n == 0));
         assert!(q.front().map(|x| x.to_bits()) == if n > 0 { Some(sh[0].to_bits()) } else { None });
@@ -164,8 +166,9 @@ mod std_specs {
     }
     #[kani::proof]
     #[kani::unwind(5)]
-    fn std_clone_last() {
-        let (q, sh, n) = any_deque();
+    fn std_clone_last() { layouts(clone_last) }
+    fn clone_last(rot: usize, n: usize) {
+        let (q, sh, n) = mk_deque(rot, n);
         let c = q.clone();
         assert!(c.len() == n);
         let i: usize = kani::any(); kani::assume(i < MAXN);
